@@ -357,10 +357,20 @@ Definition hexadecimal_string (s : bytes) : pres bytes :=
   end.
 
 (* ---------- direct objects ---------- *)
+(* token_end = not(one regular byte): a keyword is a whole token, it ends at white space, at a
+   delimiter or at the end of the input (since the repair of finding C14-keyword-operator) *)
+Definition token_end (s : bytes) : bool :=
+  match s with c :: _ => negb (is_regular c) | [] => true end.
+(* terminated(tag(t), token_end) *)
+Definition pkeyword (t s : bytes) : pres unit :=
+  match ptag t s with
+  | POk _ r => if token_end r then POk tt r else PErr
+  | e => e
+  end.
 Definition boolean (s : bytes) : pres obj :=
-  palt (pmap (fun _ => OBool true) (ptag (bs "true") s))
-       (fun _ => pmap (fun _ => OBool false) (ptag (bs "false") s)).
-Definition null (s : bytes) : pres obj := pmap (fun _ => ONull) (ptag (bs "null") s).
+  palt (pmap (fun _ => OBool true) (pkeyword (bs "true") s))
+       (fun _ => pmap (fun _ => OBool false) (pkeyword (bs "false") s)).
+Definition null (s : bytes) : pres obj := pmap (fun _ => ONull) (pkeyword (bs "null") s).
 
 Definition in_i64 (z : Z) : bool := ((i64_min <=? z) && (z <=? i64_max))%Z.
 
@@ -567,9 +577,18 @@ Definition image_data_stream (s : bytes) (d : dict) : ids_res :=
 Definition stream_new (d : dict) (c : bytes) : obj :=
   OStream (dict_set d K_Length (OInt (Z.of_nat (length c)))) c.
 
-(* inline_image = preceded(pair(tag "BI", content_space), cut(inline_image_impl)) *)
+(* what follows ID: opt(alt(eol, " ", "\t")) -- ONE white-space character (CR LF counts as one);
+   the next byte is the first byte of the image data even if it is white space itself (since the
+   repair of finding C14-image-leading-space; before: content_space, i.e. all white space) *)
+Definition id_sep (s : bytes) : bytes :=
+  match eol s with
+  | POk _ r => r
+  | _ => match s with x20 :: r => r | x09 :: r => r | _ => s end
+  end.
+
+(* inline_image = preceded((tag "BI", token_end, content_space), cut(inline_image_impl)) *)
 Definition inline_image (fuel : nat) (s : bytes) : pres (list obj * bytes) :=
-  match ptag (bs "BI") s with
+  match pkeyword (bs "BI") s with
   | POk _ r =>
     match fuel with
     | O => POut
@@ -580,7 +599,7 @@ Definition inline_image (fuel : nat) (s : bytes) : pres (list obj * bytes) :=
       | POk d r1 =>
         match ptag (bs "ID") r1 with
         | POk _ r2 =>
-          match image_data_stream (content_space r2) d with
+          match image_data_stream (id_sep r2) d with
           | IdsOk c r3 =>
             match ptag (bs "EI") (content_space r3) with
             | POk _ r4 => POk ([stream_new d c], bs "BI") (content_space r4)
